@@ -166,7 +166,10 @@ func (e *DtnEndpoint) UnmarshalCbor(r io.Reader) error {
 	} else {
 		switch m {
 		case cboring.UInt:
-			// dtn:none
+			// dtn:none is the unsigned integer zero, nothing else
+			if n != 0 {
+				return fmt.Errorf("DtnEndpoint: unsigned integer %d does not represent \"dtn:none\"", n)
+			}
 			e.IsDtnNone = true
 
 		case cboring.TextString:
